@@ -133,21 +133,27 @@ func hopByHopHeaderRemove(outreq, req *bfe_http.Request) {
 		}
 	}
 
-	// Remove the headers nominated by the Connection header (RFC 7230, section 6.1).
-	for _, v := range req.Header["Connection"] {
-		for _, f := range strings.Split(v, ",") {
-			if f = strings.TrimSpace(f); f != "" {
-				del(f)
-			}
-		}
-	}
-
 	for _, h := range bfe_basic.HopHeaders {
 		del(h)
 	}
 
 	if teTrailers {
 		outreq.Header.Set("Te", "trailers")
+	}
+}
+
+// connectionNominatedHeaderRemove removes the header fields nominated by the
+// client's Connection header (RFC 7230, section 6.1). It runs before any module
+// callback, so that only fields received from the client are removed: a client
+// must not be able to strip fields which BFE adds later (X-Real-Ip,
+// X-Forwarded-For, ...) by nominating them.
+func connectionNominatedHeaderRemove(req *bfe_http.Request) {
+	for _, v := range req.Header["Connection"] {
+		for _, f := range strings.Split(v, ",") {
+			if f = strings.TrimSpace(f); f != "" {
+				req.Header.Del(f)
+			}
+		}
 	}
 }
 
@@ -612,6 +618,9 @@ func (p *ReverseProxy) ServeHTTP(rw bfe_http.ResponseWriter, basicReq *bfe_basic
 
 	// set clientip of original user for request
 	setClientAddr(basicReq)
+
+	// remove header fields nominated as hop-by-hop by the client
+	connectionNominatedHeaderRemove(req)
 
 	// Callback for HandleBeforeLocation
 	hl = srv.CallBacks.GetHandlerList(bfe_module.HandleBeforeLocation)
